@@ -46,16 +46,17 @@ type Profile struct {
 }
 
 var Profiles = map[string]Profile{
-	"c01": {Name: "c01", Mutate: 50, MutateRows: 20, Read: 10, Clock: 8, ReadAfterWrite: true, Invalid: 12, MinOps: 4, MaxOps: 40},
-	"c03": {Name: "c03", Mutate: 10, MutateRows: 10, Read: 70, Keys: 8, DropRange: 2, RowSets: 90, Filters: 15, MinOps: 10, MaxOps: 40, ManyRows: true},
-	"c05": {Name: "c05", Mutate: 6, MutateRows: 10, Read: 80, Rand: 4, Filters: 100, RowSets: 10, MinOps: 10, MaxOps: 40, ManyRows: true},
-	"c06": {Name: "c06", Mutate: 30, MutateRows: 30, Cam: 15, Rmw: 15, Read: 5, ReadAfterWrite: true, Invalid: 45, MinOps: 4, MaxOps: 25},
-	"c12": {Name: "c12", Mutate: 15, MutateRows: 5, Cam: 60, Read: 5, Rand: 3, Clock: 3, ReadAfterWrite: true, Invalid: 15, MinOps: 4, MaxOps: 30},
-	"c13": {Name: "c13", Mutate: 20, Rmw: 60, Read: 5, Clock: 10, ReadAfterWrite: true, Invalid: 5, MinOps: 4, MaxOps: 30},
-	"c14": {Name: "c14", Mutate: 15, MutateRows: 10, Modify: 20, DropRange: 15, Create: 10, Delete: 8, List: 6, Get: 8, Read: 8, Keys: 3, ReadAfterWrite: true, Invalid: 5, MinOps: 6, MaxOps: 40, GcRules: true},
-	"c16": {Name: "c16", Mutate: 25, MutateRows: 15, Gc: 25, Clock: 15, Modify: 8, Read: 5, Keys: 4, ReadAfterWrite: true, MinOps: 6, MaxOps: 40, GcRules: true},
+	"c01":    {Name: "c01", Mutate: 50, MutateRows: 20, Read: 10, Clock: 8, ReadAfterWrite: true, Invalid: 12, MinOps: 4, MaxOps: 40},
+	"c03":    {Name: "c03", Mutate: 10, MutateRows: 10, Read: 70, Keys: 8, DropRange: 2, RowSets: 90, Filters: 15, MinOps: 10, MaxOps: 40, ManyRows: true},
+	"c05":    {Name: "c05", Mutate: 6, MutateRows: 10, Read: 80, Rand: 4, Filters: 100, RowSets: 10, MinOps: 10, MaxOps: 40, ManyRows: true},
+	"c06":    {Name: "c06", Mutate: 30, MutateRows: 30, Cam: 15, Rmw: 15, Read: 5, ReadAfterWrite: true, Invalid: 45, MinOps: 4, MaxOps: 25},
+	"c12":    {Name: "c12", Mutate: 15, MutateRows: 5, Cam: 60, Read: 5, Rand: 3, Clock: 3, ReadAfterWrite: true, Invalid: 15, MinOps: 4, MaxOps: 30},
+	"c13":    {Name: "c13", Mutate: 20, Rmw: 60, Read: 5, Clock: 10, ReadAfterWrite: true, Invalid: 5, MinOps: 4, MaxOps: 30},
+	"c14":    {Name: "c14", Mutate: 15, MutateRows: 10, Modify: 20, DropRange: 15, Create: 10, Delete: 8, List: 6, Get: 8, Read: 8, Keys: 3, ReadAfterWrite: true, Invalid: 5, MinOps: 6, MaxOps: 40, GcRules: true},
+	"c16":    {Name: "c16", Mutate: 25, MutateRows: 15, Gc: 25, Clock: 15, Modify: 8, Read: 5, Keys: 4, ReadAfterWrite: true, MinOps: 6, MaxOps: 40, GcRules: true},
 	"c03big": {Name: "c03big", Mutate: 5, Read: 90, Keys: 5, RowSets: 70, Filters: 10, MinOps: 6, MaxOps: 14, Big: 450},
-	"c16w": {Name: "c16w", Mutate: 10, Gcw: 50, Clock: 20, Read: 10, Keys: 10, ReadAfterWrite: true, MinOps: 4, MaxOps: 10, GcRules: true, Big: 260},
+	"c16w":   {Name: "c16w", Mutate: 10, Gcw: 50, Clock: 20, Read: 10, Keys: 10, ReadAfterWrite: true, MinOps: 4, MaxOps: 10, GcRules: true, Big: 260},
+	"c08":    {Name: "c08", Mutate: 25, MutateRows: 12, Cam: 4, Rmw: 6, Modify: 12, DropRange: 12, Create: 10, Delete: 8, Gc: 3, Clock: 3, MinOps: 8, MaxOps: 35, GcRules: true, Invalid: 5},
 	"c17": {Name: "c17", Mutate: 20, MutateRows: 12, Cam: 8, Rmw: 8, Read: 20, Keys: 3, Modify: 5, DropRange: 5, Create: 3, Delete: 2, List: 2, Get: 3, Gc: 4, Clock: 4, Rand: 2,
 		ReadAfterWrite: false, Filters: 50, RowSets: 50, Invalid: 10, MinOps: 10, MaxOps: 60, GcRules: true},
 }
@@ -420,14 +421,30 @@ func (g *Gen) Program() []core.Op {
 			// during a pass is visited by it; engines differ): family f carries no rule and
 			// every row has an f cell.
 			prog[len(prog)-1].(*Op).Fams[0].Rule = nil
+			// family g always carries a rule that can condemn every cell of a row, so that rows
+			// holding only g cells are emptied by a pass (and deleted at its end, after a re-check)
+			prog[len(prog)-1].(*Op).Fams[1].Rule = core.Pick(g.R, []*Rule{
+				{Kind: "a", Sec: 0, Nanos: 1000000},
+				{Kind: "u", Subs: []*Rule{{Kind: "v", N: 1}, {Kind: "a", Sec: 0, Nanos: 2000000}}},
+				{Kind: "a", Sec: 1},
+			})
 		}
 		o := &Op{Kind: "mutaterows", Name: big}
 		for i := 0; i < g.P.Big; i++ {
 			k := []byte(fmt.Sprintf("r%04d", i))
 			var ms []Mut
-			ms = append(ms, Mut{Kind: "set", Fam: Fams[0], Qual: []byte("k"), TS: 1000, Val: []byte("v")})
+			if g.P.Gcw == 0 || i%3 != 1 {
+				ms = append(ms, Mut{Kind: "set", Fam: Fams[0], Qual: []byte("k"), TS: 1000, Val: []byte("v")})
+			} else {
+				// a row that lives in family g only
+				ms = append(ms, Mut{Kind: "set", Fam: Fams[1], Qual: []byte("k"), TS: core.Pick(g.R, GoodTS[:3]), Val: []byte("v")})
+			}
 			for j := 0; j < 1+g.R.Intn(3); j++ {
-				ms = append(ms, Mut{Kind: "set", Fam: core.Pick(g.R, Fams), Qual: core.Pick(g.R, Quals[:3]), TS: core.Pick(g.R, GoodTS[:4]), Val: core.Pick(g.R, Values[:4])})
+				fam := core.Pick(g.R, Fams)
+				if g.P.Gcw > 0 && i%3 == 1 {
+					fam = Fams[1]
+				}
+				ms = append(ms, Mut{Kind: "set", Fam: fam, Qual: core.Pick(g.R, Quals[:3]), TS: core.Pick(g.R, GoodTS[:4]), Val: core.Pick(g.R, Values[:4])})
 			}
 			o.Entries = append(o.Entries, Entry{Key: k, Muts: ms})
 		}
@@ -565,7 +582,11 @@ func (g *Gen) Program() []core.Op {
 			o := &Op{Kind: "gcw", Name: big}
 			t = big
 			for j := 0; j < 1+g.R.Intn(3); j++ {
-				k := []byte(fmt.Sprintf("r%04d", g.R.Intn(g.P.Big)))
+				ki := g.R.Intn(g.P.Big)
+				if g.R.Chance(1, 2) {
+					ki = 1 + 3*g.R.Intn(33) // a g-only row among the first hundred: visited before the first reversal
+				}
+				k := []byte(fmt.Sprintf("r%04d", ki))
 				var ms []Mut
 				for x := 0; x < 1+g.R.Intn(2); x++ {
 					ms = append(ms, Mut{Kind: "set", Fam: core.Pick(g.R, Fams), Qual: core.Pick(g.R, Quals[:3]), TS: core.Pick(g.R, GoodTS[:5]), Val: core.Pick(g.R, Values[:4])})
